@@ -15,14 +15,19 @@ def check(ctx):
     sub = type("S", (), {})()
     before = len(ctx.obs)
     T.rules_c04(ctx, tab, tag="")
-    # keep only the R5 obligations of C04 under C05/R3
+    # C04/R5 (discard the record) is C05/R3; the other transition rules of C04 (same state = no effect, state and time
+    # reset, blend from the live values, one evaluation at the new time, resume from the record) are what "evaluated at
+    # the time spent in that state, started from the values held when the state was entered" rests on: C05/R10
     kept = []
     for o in ctx.obs[before:]:
+        o = dict(o)
         if o["rule"] == "R5":
-            o = dict(o)
-            o["rule"] = "R3"
             o["key"] = o["key"].replace("C05/R5/", "C05/R3/")
-            kept.append(o)
+            o["rule"] = "R3"
+        else:
+            o["key"] = o["key"].replace("C05/%s/" % o["rule"], "C05/R10/%s/" % o["rule"].lower(), 1)
+            o["rule"] = "R10"
+        kept.append(o)
     ctx.obs[before:] = kept
     R = tab["roles"]
     check_ctor(ctx, F, R)
